@@ -174,3 +174,247 @@ VARIANTS += [
  dict(name='outcome-producer-error-not-tested-by-caller', file=V, expect='flagged((*ngo/verifier.verifier).Verify)', find=PR_OLD, replace=pr_new(test='skipped'), edits=[pr_helper()]),
  dict(name='outcome-producer-skip-not-tested-by-caller', file=V, expect='flagged(nilable/envelope-content/(*ngo/verifier.verifier).Verify)', find=PR_OLD, replace=pr_new(test='err != nil').replace('\tif err != nil {', '\t_ = skipped\n\tif err != nil {'), edits=[pr_helper()]),
 ]
+
+# the cap moved into the fetch helper together with the fetch, the limit being a parameter (round-4 seed C19-6 and its benign twin)
+FL_HELPER = (R, '// signatureReferrers returns referrer nodes', 'func fetchLimited(ctx context.Context, fetcher content.Fetcher, desc ocispec.Descriptor, limit int64, what string) ([]byte, error) {\n\tif desc.Size > limit {\n\t\treturn nil, fmt.Errorf("%s too large: %d bytes", what, desc.Size)\n\t}\n\treturn content.FetchAll(ctx, fetcher, desc)\n}\n\n// signatureReferrers returns referrer nodes')
+FL_BLOB_CAP = (R, '\tif sigBlobDesc.Size > maxBlobSizeLimit {\n\t\treturn nil, ocispec.Descriptor{}, fmt.Errorf("signature blob too large: %d bytes", sigBlobDesc.Size)\n\t}\n', '')
+FL_MAN_CAP = (R, '\tif sigManifestDesc.Size > maxManifestSizeLimit {\n\t\treturn ocispec.Descriptor{}, fmt.Errorf("signature manifest too large: %d bytes", sigManifestDesc.Size)\n\t}\n', '')
+def fl_calls(blob='maxBlobSizeLimit', man='maxManifestSizeLimit'):
+    return [(R, '\tsigBlob, err := content.FetchAll(ctx, fetcher, sigBlobDesc)', '\tsigBlob, err := fetchLimited(ctx, fetcher, sigBlobDesc, %s, "signature blob")' % blob),
+            (R, '\tmanifestJSON, err := content.FetchAll(ctx, fetcher, sigManifestDesc)', '\tmanifestJSON, err := fetchLimited(ctx, fetcher, sigManifestDesc, %s, "signature manifest")' % man)]
+VARIANTS += [
+ dict(name='benign-cap-and-fetch-in-helper-with-limit-parameter', expect='silent', edits=[FL_HELPER, FL_BLOB_CAP, FL_MAN_CAP] + fl_calls()),
+ dict(name='benign-limit-helper-compares-a-constant', expect='silent',
+      edits=[(FL_HELPER[0], FL_HELPER[1], FL_HELPER[2].replace('desc.Size > limit', 'desc.Size > maxBlobSizeLimit').replace('"%s too large: %d bytes", what, desc.Size', '"%s too large: %d bytes (limit %d)", what, desc.Size, limit')), FL_BLOB_CAP, FL_MAN_CAP] + fl_calls()),
+ dict(name='limit-helper-one-caller-passes-no-limit', expect='flagged(size-cap/)', edits=[FL_HELPER, FL_BLOB_CAP, FL_MAN_CAP] + fl_calls(man='0')),
+ dict(name='limit-helper-caller-passes-a-computed-limit', expect='flagged(size-cap/)', edits=[FL_HELPER, FL_BLOB_CAP, FL_MAN_CAP] + fl_calls(blob='sigBlobDesc.Size+1')),
+ dict(name='limit-helper-ignores-the-limit', expect='flagged(size-cap/)',
+      edits=[(FL_HELPER[0], FL_HELPER[1], FL_HELPER[2].replace('\tif desc.Size > limit {\n\t\treturn nil, fmt.Errorf("%s too large: %d bytes", what, desc.Size)\n\t}\n', '\t_ = limit\n\t_ = what\n')), FL_BLOB_CAP, FL_MAN_CAP] + fl_calls()),
+]
+
+# ---- pointers out of decoded data (nilable/decoded-element, nilable/decoded-field) ----------------------------------------------
+# the per-capability verdict of the verification plugin is a *VerificationResult looked up in a map decoded from the plugin's
+# stdout: `{"verificationResults":{"<capability>":null}}` is a present key with a nil value. The presence test of the comma-ok
+# form is not a nil test; the dereference may sit in a helper; the test may sit in the reader, in the helper, or at the return
+# of a helper that hands the pointer back.
+LK_OLD = '\t\tpluginResult := response.VerificationResults[capability]\n\t\tif pluginResult == nil {\n'
+LK_OK = '\t\tpluginResult, ok := response.VerificationResults[capability]\n\t\tif !ok {\n'
+LK_OK_NIL = '\t\tpluginResult, ok := response.VerificationResults[capability]\n\t\tif !ok || pluginResult == nil {\n'
+DE_KEY = 'flagged(nilable/decoded-element/ngo/verifier.processPluginResponse)'
+# seed 6 of round 4: the whole function tidied up (arms moved into helpers that dereference the verdict)
+PP_OLD = r'''func processPluginResponse(capabilitiesToVerify []pluginframework.Capability, response *pluginframework.VerifySignatureResponse, outcome *notation.VerificationOutcome) error {
+	verificationPluginName, err := getVerificationPlugin(&outcome.EnvelopeContent.SignerInfo)
+	if err != nil {
+		return err
+	}
+
+	// attribute keys are strings in the plugin protocol: a critical attribute
+	// with any other key type (COSE labels can be integers) cannot be handed
+	// to the plugin, so nothing can have processed it
+	for _, attr := range outcome.EnvelopeContent.SignerInfo.SignedAttributes.ExtendedAttributes {
+		if _, ok := attr.Key.(string); !ok && attr.Critical {
+			return fmt.Errorf("extended critical attribute %v is not supported: only attributes with a string key can be processed by the verification plugin %q", attr.Key, verificationPluginName)
+		}
+	}
+
+	// verify all extended critical attributes are processed by the plugin
+	for _, attr := range getNonPluginExtendedCriticalAttributes(&outcome.EnvelopeContent.SignerInfo) {
+		if !slices.ContainsAny(response.ProcessedAttributes, attr.Key) {
+			return fmt.Errorf("extended critical attribute %q was not processed by the verification plugin %q (all extended critical attributes must be processed by the verification plugin)", attr.Key, verificationPluginName)
+		}
+	}
+
+	for _, capability := range capabilitiesToVerify {
+		pluginResult := response.VerificationResults[capability]
+		if pluginResult == nil {
+			// verification result is empty for this capability
+			return notation.ErrorVerificationInconclusive{Msg: fmt.Sprintf("verification plugin %q failed to verify %q", verificationPluginName, capability)}
+		}
+		switch capability {
+		case pluginframework.CapabilityTrustedIdentityVerifier:
+			if !pluginResult.Success {
+				// find the Authenticity VerificationResult that we already
+				// created during x509 trust store verification
+				var authenticityResult *notation.ValidationResult
+				for _, r := range outcome.VerificationResults {
+					if r.Type == trustpolicy.TypeAuthenticity {
+						authenticityResult = r
+						break
+					}
+				}
+
+				authenticityResult.Error = fmt.Errorf("trusted identify verification by plugin %q failed with reason %q", verificationPluginName, pluginResult.Reason)
+
+				if isCriticalFailure(authenticityResult) {
+					return authenticityResult.Error
+				}
+			}
+		case pluginframework.CapabilityRevocationCheckVerifier:
+			var revocationResult *notation.ValidationResult
+			if !pluginResult.Success {
+				revocationResult = &notation.ValidationResult{
+					Error:  fmt.Errorf("revocation check by verification plugin %q failed with reason %q", verificationPluginName, pluginResult.Reason),
+					Type:   trustpolicy.TypeRevocation,
+					Action: outcome.VerificationLevel.Enforcement[trustpolicy.TypeRevocation],
+				}
+			} else {
+				revocationResult = &notation.ValidationResult{
+					Type:   trustpolicy.TypeRevocation,
+					Action: outcome.VerificationLevel.Enforcement[trustpolicy.TypeRevocation],
+				}
+			}
+			outcome.VerificationResults = append(outcome.VerificationResults, revocationResult)
+			if isCriticalFailure(revocationResult) {
+				return revocationResult.Error
+			}
+		}
+	}
+
+	return nil
+}
+
+'''
+PP_NEW = r'''func processPluginResponse(capabilitiesToVerify []pluginframework.Capability, response *pluginframework.VerifySignatureResponse, outcome *notation.VerificationOutcome) error {
+	signerInfo := &outcome.EnvelopeContent.SignerInfo
+	verificationPluginName, err := getVerificationPlugin(signerInfo)
+	if err != nil {
+		return err
+	}
+	if err := checkPluginProcessedAttributes(verificationPluginName, signerInfo, response.ProcessedAttributes); err != nil {
+		return err
+	}
+
+	for _, capability := range capabilitiesToVerify {
+		pluginResult, ok := response.VerificationResults[capability]
+		if !ok {
+			// verification result is empty for this capability
+			return notation.ErrorVerificationInconclusive{Msg: fmt.Sprintf("verification plugin %q failed to verify %q", verificationPluginName, capability)}
+		}
+
+		var result *notation.ValidationResult
+		switch capability {
+		case pluginframework.CapabilityTrustedIdentityVerifier:
+			result = pluginTrustedIdentityResult(verificationPluginName, pluginResult, outcome)
+		case pluginframework.CapabilityRevocationCheckVerifier:
+			result = pluginRevocationResult(verificationPluginName, pluginResult, outcome)
+			outcome.VerificationResults = append(outcome.VerificationResults, result)
+		default:
+			continue
+		}
+		if isCriticalFailure(result) {
+			return result.Error
+		}
+	}
+
+	return nil
+}
+
+// checkPluginProcessedAttributes verifies that every extended critical
+// attribute of the signature has been processed by the verification plugin.
+func checkPluginProcessedAttributes(verificationPluginName string, signerInfo *signature.SignerInfo, processedAttributes []interface{}) error {
+	// attribute keys are strings in the plugin protocol: a critical attribute
+	// with any other key type (COSE labels can be integers) cannot be handed
+	// to the plugin, so nothing can have processed it
+	for _, attr := range signerInfo.SignedAttributes.ExtendedAttributes {
+		if _, ok := attr.Key.(string); !ok && attr.Critical {
+			return fmt.Errorf("extended critical attribute %v is not supported: only attributes with a string key can be processed by the verification plugin %q", attr.Key, verificationPluginName)
+		}
+	}
+
+	// verify all extended critical attributes are processed by the plugin
+	for _, attr := range getNonPluginExtendedCriticalAttributes(signerInfo) {
+		if !slices.ContainsAny(processedAttributes, attr.Key) {
+			return fmt.Errorf("extended critical attribute %q was not processed by the verification plugin %q (all extended critical attributes must be processed by the verification plugin)", attr.Key, verificationPluginName)
+		}
+	}
+	return nil
+}
+
+// pluginTrustedIdentityResult folds the trusted identity verification done by
+// the plugin into the Authenticity ValidationResult that was created during
+// x509 trust store verification, and returns that result.
+func pluginTrustedIdentityResult(verificationPluginName string, pluginResult *pluginframework.VerificationResult, outcome *notation.VerificationOutcome) *notation.ValidationResult {
+	var authenticityResult *notation.ValidationResult
+	for _, r := range outcome.VerificationResults {
+		if r.Type == trustpolicy.TypeAuthenticity {
+			authenticityResult = r
+			break
+		}
+	}
+	if !pluginResult.Success {
+		authenticityResult.Error = fmt.Errorf("trusted identify verification by plugin %q failed with reason %q", verificationPluginName, pluginResult.Reason)
+	}
+	return authenticityResult
+}
+
+// pluginRevocationResult returns the Revocation ValidationResult of the
+// revocation check done by the plugin.
+func pluginRevocationResult(verificationPluginName string, pluginResult *pluginframework.VerificationResult, outcome *notation.VerificationOutcome) *notation.ValidationResult {
+	result := &notation.ValidationResult{
+		Type:   trustpolicy.TypeRevocation,
+		Action: outcome.VerificationLevel.Enforcement[trustpolicy.TypeRevocation],
+	}
+	if !pluginResult.Success {
+		result.Error = fmt.Errorf("revocation check by verification plugin %q failed with reason %q", verificationPluginName, pluginResult.Reason)
+	}
+	return result
+}
+
+'''
+VI = 'func verifyIntegrity(sigBlob []byte'
+def vi(helpers):
+    return (V, VI, helpers + '\n' + VI)
+H_FAILED = 'func pluginVerdictFailed(r *pluginframework.VerificationResult) bool {\n\treturn !r.Success\n}\n'
+H_FAILED_SAFE = 'func pluginVerdictFailed(r *pluginframework.VerificationResult) bool {\n\tif r == nil {\n\t\treturn true\n\t}\n\treturn !r.Success\n}\n'
+H_REASON = 'func pluginVerdictReason(r *pluginframework.VerificationResult) string {\n\treturn r.Reason\n}\n'
+H_REASON_SAFE = 'func pluginVerdictReason(r *pluginframework.VerificationResult) string {\n\tif r != nil {\n\t\treturn r.Reason\n\t}\n\treturn "no result"\n}\n'
+USE_FAILED = (V, '\t\t\tif !pluginResult.Success {\n', '\t\t\tif pluginVerdictFailed(pluginResult) {\n')
+USE_REASON = (V, 'verificationPluginName, pluginResult.Reason)', 'verificationPluginName, pluginVerdictReason(pluginResult))')
+def h_lookup(ret):
+    return 'func verdictFor(response *pluginframework.VerifySignatureResponse, capability pluginframework.Capability) (*pluginframework.VerificationResult, bool) {\n\tr, ok := response.VerificationResults[capability]\n\treturn ' + ret + '\n}\n'
+def lk_helper(test):
+    return '\t\tpluginResult, ok := verdictFor(response, capability)\n\t\tif ' + test + ' {\n'
+VARIANTS += [
+ dict(name='seed4-6-verdict-presence-only-derefs-in-helpers', file=V, expect='flagged(nilable/decoded-element/ngo/verifier.processPluginResponse)', find=PP_OLD, replace=PP_NEW),
+ dict(name='benign-seed4-6-twin-presence-and-nil-test', file=V, expect='silent', find=PP_OLD, replace=PP_NEW.replace('\t\tif !ok {\n', '\t\tif !ok || pluginResult == nil {\n')),
+ dict(name='benign-seed4-6-twin-plain-lookup-nil-test', file=V, expect='silent', find=PP_OLD,
+      replace=PP_NEW.replace('\t\tpluginResult, ok := response.VerificationResults[capability]\n\t\tif !ok {\n', '\t\tpluginResult := response.VerificationResults[capability]\n\t\tif pluginResult == nil {\n')),
+ dict(name='verdict-presence-test-only', file=V, expect=DE_KEY, find=LK_OLD, replace=LK_OK),
+ dict(name='verdict-nil-test-dropped', file=V, expect=DE_KEY,
+      find=LK_OLD + '\t\t\t// verification result is empty for this capability\n\t\t\treturn notation.ErrorVerificationInconclusive{Msg: fmt.Sprintf("verification plugin %q failed to verify %q", verificationPluginName, capability)}\n\t\t}\n',
+      replace='\t\tpluginResult := response.VerificationResults[capability]\n'),
+ dict(name='verdict-nil-test-on-other-capability', file=V, expect=DE_KEY, find=LK_OLD,
+      replace='\t\tpluginResult := response.VerificationResults[capability]\n\t\tif response.VerificationResults[pluginframework.CapabilityTrustedIdentityVerifier] == nil {\n'),
+ dict(name='benign-verdict-presence-and-nil-test', file=V, expect='silent', find=LK_OLD, replace=LK_OK_NIL),
+ dict(name='benign-verdict-nil-test-in-boolean-local', file=V, expect='silent', find=LK_OLD,
+      replace='\t\tpluginResult := response.VerificationResults[capability]\n\t\tmissing := nil == pluginResult\n\t\tif missing {\n'),
+ dict(name='benign-verdict-through-phi-tested', file=V, expect='silent', find=LK_OLD,
+      replace='\t\tvar pluginResult *pluginframework.VerificationResult\n\t\tif r, ok := response.VerificationResults[capability]; ok {\n\t\t\tpluginResult = r\n\t\t}\n\t\tif pluginResult == nil {\n'),
+ # the dereference in a helper
+ dict(name='benign-verdict-deref-in-helper-caller-tests', expect='silent', edits=[USE_FAILED, USE_FAILED, vi(H_FAILED)]),
+ dict(name='verdict-deref-in-helper-caller-tests-presence-only', expect=DE_KEY, edits=[(V, LK_OLD, LK_OK), USE_FAILED, USE_FAILED, USE_REASON, USE_REASON, vi(H_FAILED_SAFE + '\n' + H_REASON)]),
+ dict(name='benign-verdict-read-only-by-nil-safe-helpers', expect='silent', edits=[(V, LK_OLD, LK_OK), USE_FAILED, USE_FAILED, USE_REASON, USE_REASON, vi(H_FAILED_SAFE + '\n' + H_REASON_SAFE)]),
+ dict(name='verdict-one-arm-reaches-helper-unguarded', expect=DE_KEY,
+      edits=[(V, LK_OLD, '\t\tpluginResult, ok := response.VerificationResults[capability]\n\t\tif !ok || (pluginResult == nil && capability != pluginframework.CapabilityRevocationCheckVerifier) {\n'), USE_FAILED, USE_FAILED, vi(H_FAILED)]),
+ # the pointer handed back by a helper
+ dict(name='verdict-from-helper-presence-only', expect='flagged(nilable/decoded-element/ngo/verifier.verdictFor)', edits=[(V, LK_OLD, lk_helper('!ok')), vi(h_lookup('r, ok'))]),
+ dict(name='benign-verdict-from-helper-caller-tests-nil', expect='silent', edits=[(V, LK_OLD, lk_helper('!ok || pluginResult == nil')), vi(h_lookup('r, ok'))]),
+ dict(name='benign-verdict-from-helper-that-tests-nil', expect='silent', edits=[(V, LK_OLD, lk_helper('!ok')),
+      vi('func verdictFor(response *pluginframework.VerifySignatureResponse, capability pluginframework.Capability) (*pluginframework.VerificationResult, bool) {\n\tr := response.VerificationResults[capability]\n\tif r == nil {\n\t\treturn nil, false\n\t}\n\treturn r, true\n}\n')]),
+]
+# optional pointer members of decoded documents (manifest subject, default key name)
+SUBJ_OLD = '\t\t\tif image.Subject == nil || !content.Equal(*image.Subject, desc) {\n'
+ART_OLD = '\t\t\tif artifact.Subject == nil || !content.Equal(*artifact.Subject, desc) {\n'
+DF_KEY = 'flagged(nilable/decoded-field/ngo/registry.signatureReferrers)'
+def subj_helper(body):
+    return (R, '// signatureReferrers returns referrer nodes', 'func sameSubject(subject *ocispec.Descriptor, desc ocispec.Descriptor) bool {\n\treturn ' + body + '\n}\n\n// signatureReferrers returns referrer nodes')
+SUBJ_USE = [(R, SUBJ_OLD, '\t\t\tif !sameSubject(image.Subject, desc) {\n'), (R, ART_OLD, '\t\t\tif !sameSubject(artifact.Subject, desc) {\n')]
+VARIANTS += [
+ dict(name='manifest-subject-nil-test-dropped', file=R, expect=DF_KEY, find=SUBJ_OLD, replace='\t\t\tif !content.Equal(*image.Subject, desc) {\n'),
+ dict(name='artifact-subject-nil-test-on-other-document', file=R, expect=DF_KEY, find=ART_OLD, replace='\t\t\tif node.Annotations == nil || !content.Equal(*artifact.Subject, desc) {\n'),
+ dict(name='benign-manifest-subject-in-local', file=R, expect='silent', find=SUBJ_OLD, replace='\t\t\tif subject := image.Subject; subject == nil || !content.Equal(*subject, desc) {\n'),
+ dict(name='benign-subject-test-in-helper', expect='silent', edits=SUBJ_USE + [subj_helper('subject != nil && content.Equal(*subject, desc)')]),
+ dict(name='subject-helper-without-nil-test', expect=DF_KEY, edits=SUBJ_USE + [subj_helper('content.Equal(*subject, desc)')]),
+ dict(name='default-key-nil-test-dropped', file='config/keys.go', expect='flagged(nilable/decoded-field/ngo/config.validateKeys)',
+      find='\tif config.Default != nil {\n\t\tdefaultKey := *config.Default\n', replace='\tif len(config.Keys) > 0 {\n\t\tdefaultKey := *config.Default\n'),
+]
